@@ -530,7 +530,9 @@ func (w *cliWorld) closedGates() []cgate {
 			gs = append(gs, cgate{cancel: op})
 		}
 		for _, q := range op.Reqs {
-			if (q.Plan == 1 || q.Plan == 2) && q.SentSeq >= 0 && !q.Opened {
+			// plan 3: the defective member is followed, later, by a valid reply, so
+			// that an implementation that ignores defective members also completes
+			if (q.Plan == 1 || q.Plan == 2 || q.Plan == 3) && q.SentSeq >= 0 && !q.Opened {
 				gs = append(gs, cgate{q: q})
 			}
 		}
